@@ -98,7 +98,10 @@ Definition t_replace (s : tstate) (nw : child) : tstate * list cev :=
 Definition t_map_some (s : tstate) : bool :=
   match s with TKeep _ | TRegister _ | TDisable _ | TReplace _ _ => true | TRemove _ | TNone => false end.
 
-Inductive top := OpEvent (a : postaction) | OpRemove | OpReplace | OpRegister | OpReregister | OpUnregister.
+(* OpEventThen a rp: the child's event (answer a), after which the parent's process_events calls remove() (rp = false) or
+   replace(new) (rp = true) and returns Reregister, all before the loop re-registers *)
+Inductive top := OpEvent (a : postaction) | OpRemove | OpReplace | OpRegister | OpReregister | OpUnregister
+              | OpEventThen (a : postaction) (rp : bool).
 
 Definition pa_ret_code (a : postaction) : N := pa_code a.
 
@@ -116,6 +119,18 @@ Definition t_step (s : tst) (o : top) : tst :=
                             mkT st2 (parent_reg s) (next_id s) false (evs s ++ e1 ++ [CRet (pa_code ret)] ++ e2 ++ [CRes ok])
             | _ => mkT st1 (parent_reg s) (next_id s) (dirty s) (evs s ++ e1 ++ [CRet (pa_code ret)])
             end
+          else s
+      | _ => s
+      end
+  | OpEventThen a rp =>
+      match ts s with
+      | TKeep c =>
+          if parent_reg s && c_reg c then
+            let '(st1, ret, e1) := t_process (ts s) a in
+            let '(st2, e2) := if rp then t_replace st1 (mkChild (next_id s) false) else t_remove st1 in
+            let '(ok, st3, e3) := t_reregister st2 in
+            mkT st3 (parent_reg s) (if rp then next_id s + 1 else next_id s) false
+                (evs s ++ e1 ++ [CRet (pa_code ret)] ++ e2 ++ e3 ++ [CRes ok])
           else s
       | _ => s
       end
@@ -139,7 +154,7 @@ Definition proto_step (s : tst) (o : top) : bool :=
   | OpRegister => negb (parent_reg s)
   | OpUnregister => parent_reg s && negb (dirty s)
   | OpReregister => parent_reg s
-  | OpEvent _ => parent_reg s && negb (dirty s)
+  | OpEvent _ | OpEventThen _ _ => parent_reg s && negb (dirty s)
   | OpRemove | OpReplace => negb (dirty s && parent_reg s)
   end.
 Fixpoint proto_ok (s : tst) (ops : list top) : bool :=
